@@ -89,7 +89,98 @@ func loadProgram(repo string, patterns []string) (*Program, error) {
 			}
 		}
 	}
+	prog.scanGlobals()
 	return prog, nil
+}
+
+// scanGlobals finds package-level variables that are never assigned and never have their address taken
+// anywhere in the loaded module packages: their value is their initialiser (zero if none).
+func (prog *Program) scanGlobals() {
+	prog.MutableGlobals = map[*types.Var]bool{}
+	prog.GlobalInit = map[*types.Var]ast.Expr{}
+	prog.GlobalInfo = map[*types.Var]*packages.Package{}
+	for _, p := range prog.Pkgs {
+		if p.TypesInfo == nil {
+			continue
+		}
+		info := p.TypesInfo
+		mark := func(e ast.Expr) {
+			for {
+				switch x := ast.Unparen(e).(type) {
+				case *ast.Ident:
+					if v, ok := info.ObjectOf(x).(*types.Var); ok && v.Pkg() != nil && v.Parent() == v.Pkg().Scope() {
+						prog.MutableGlobals[v] = true
+					}
+					return
+				case *ast.SelectorExpr:
+					if _, isSel := info.Selections[x]; !isSel {
+						if v, ok := info.ObjectOf(x.Sel).(*types.Var); ok && v.Pkg() != nil && v.Parent() == v.Pkg().Scope() {
+							prog.MutableGlobals[v] = true
+						}
+						return
+					}
+					// field of a struct-valued global: the global's value changes
+					if _, isPtr := info.TypeOf(x.X).Underlying().(*types.Pointer); isPtr {
+						return
+					}
+					e = x.X
+				case *ast.IndexExpr:
+					if _, isArr := info.TypeOf(x.X).Underlying().(*types.Array); isArr {
+						e = x.X
+						continue
+					}
+					return
+				default:
+					return
+				}
+			}
+		}
+		for _, f := range p.Syntax {
+			for _, d := range f.Decls {
+				if gd, ok := d.(*ast.GenDecl); ok && gd.Tok == token.VAR {
+					for _, sp := range gd.Specs {
+						vs := sp.(*ast.ValueSpec)
+						for i, nm := range vs.Names {
+							if v, ok := info.Defs[nm].(*types.Var); ok {
+								prog.GlobalInfo[v] = p
+								if len(vs.Values) == len(vs.Names) {
+									prog.GlobalInit[v] = vs.Values[i]
+								} else if len(vs.Values) > 0 {
+									prog.MutableGlobals[v] = true // multi-value initialiser: treat as unknown
+								}
+							}
+						}
+					}
+				}
+			}
+			ast.Inspect(f, func(n ast.Node) bool {
+				switch x := n.(type) {
+				case *ast.AssignStmt:
+					if x.Tok != token.DEFINE {
+						for _, l := range x.Lhs {
+							mark(l)
+						}
+					}
+				case *ast.IncDecStmt:
+					mark(x.X)
+				case *ast.UnaryExpr:
+					if x.Op == token.AND {
+						mark(x.X)
+					}
+				case *ast.RangeStmt:
+					if x.Tok == token.ASSIGN {
+						if x.Key != nil {
+							mark(x.Key)
+						}
+						if x.Value != nil {
+							mark(x.Value)
+						}
+					}
+				}
+				return true
+			})
+		}
+	}
 }
 
 func (prog *Program) addContracts(cf *ContractFile) error {
